@@ -576,3 +576,19 @@ func initReflect(i *interpreter) {
 		"Error": newMethod(i.reflectPackage, errorType, "Error"),
 	}
 }
+
+func ext۰reflect۰Value۰Bytes(fr *frame, args []value) value {
+	// Signature: func (reflect.Value) []byte
+	switch v := rV2V(args[0]).(type) {
+	case []value:
+		return v
+	case array:
+		return []value(v)
+	default:
+		panic(fmt.Sprintf("reflect.(Value).Bytes(%T)", v))
+	}
+}
+
+func init() {
+	externals["(reflect.Value).Bytes"] = ext۰reflect۰Value۰Bytes
+}
